@@ -11,6 +11,26 @@ func configureProgram(p *symex.Program) {
 	p.AddReplacement("github.com/kelindar/bitmap.Max", "verifModelMax")
 	p.AddReplacement("(*github.com/kelindar/bitmap.Bitmap).Filter", "verifModelFilter")
 	p.AddReplacement("(github.com/kelindar/bitmap.Bitmap).Range", "verifModelRange")
+	p.AddReplacement("github.com/kelindar/intmap.New", "verifModelIntmapNew")
+	p.AddReplacement("(*github.com/kelindar/intmap.Map).Load", "verifModelIntmapLoad")
+	p.AddReplacement("(*github.com/kelindar/intmap.Map).Store", "verifModelIntmapStore")
+	p.AddReplacement("(*github.com/kelindar/intmap.Map).Count", "verifModelIntmapCount")
+	// I/O environment
+	p.AddReplacement("github.com/klauspost/compress/s2.NewWriter", "VerifS2NewWriter")
+	p.AddReplacement("(*github.com/klauspost/compress/s2.Writer).Write", "VerifS2Write")
+	p.AddReplacement("(*github.com/klauspost/compress/s2.Writer).Flush", "VerifS2Flush")
+	p.AddReplacement("(*github.com/klauspost/compress/s2.Writer).Close", "VerifS2Close")
+	p.AddReplacement("github.com/klauspost/compress/s2.NewReader", "VerifS2NewReader")
+	p.AddReplacement("(*github.com/klauspost/compress/s2.Reader).Read", "VerifS2Read")
+	p.AddReplacement("(*github.com/klauspost/compress/s2.Reader).ReadByte", "VerifS2ReadByte")
+	p.AddReplacement("os.CreateTemp", "VerifOsCreateTemp")
+	p.AddReplacement("os.Remove", "VerifOsRemove")
+	p.AddReplacement("(*os.File).Name", "VerifFileName")
+	p.AddReplacement("(*os.File).Write", "VerifFileWrite")
+	p.AddReplacement("(*os.File).Read", "VerifFileRead")
+	p.AddReplacement("(*os.File).Seek", "VerifFileSeek")
+	p.AddReplacement("(*os.File).Close", "VerifFileClose")
+	p.AddReplacement("io.Copy", "VerifIoCopy")
 }
 
 // applyEngineParams lets registry parameters tune engine limits.
